@@ -81,8 +81,10 @@ class _Tr(ast.NodeTransformer):
         return node
 
     def visit_Name(self, node):
-        if self.in_old and node.id in self.params and node.id not in self.bound:
-            return ast.Subscript(value=ast.Name(id="_pre", ctx=ast.Load()), slice=ast.Constant(value=node.id), ctx=ast.Load())
+        if self.in_old and isinstance(node.ctx, ast.Load) and node.id not in ("len", "abs", "min", "max", "sum", "tuple", "hash",
+                                                                             "True", "False", "None", "_oldv", "_same"):
+            # inside old(): every object is replaced by its pre-state copy (objects created by the call have none)
+            return ast.Call(func=ast.Name(id="_oldv", ctx=ast.Load()), args=[node], keywords=[])
         return node
 
     def visit_Compare(self, node):
@@ -126,7 +128,7 @@ class Evaluator:
 
     def base_env(self):
         env = {
-            "forall": _forall, "exists": _exists, "_same": self._same, "_pre": self.pre,
+            "forall": _forall, "exists": _exists, "_same": self._same, "_pre": self.pre, "_oldv": self._oldv,
             "seq_eq": lambda a, b: list(a) == list(b), "valid": lambda x: True, "fresh": lambda x: True,
             "allocated_before": lambda x: True, "is_none": lambda x: x is None,
             "unchanged": self._unchanged, "real": float, "seqsum": lambda l, lo=0, hi=None: math.fsum(list(l)[lo:hi]),
@@ -150,6 +152,11 @@ class Evaluator:
             loc.update(zip(params, args))
             return eval(_CODE[key], loc)
         return call
+
+    def _oldv(self, x):
+        if callable(x) and not hasattr(x, "__dict__"):
+            return x
+        return self.memo.get(id(x), x) if hasattr(self, "memo") else x
 
     def _canon(self, x):
         return self.canon.get(id(x), x)
